@@ -277,6 +277,19 @@ def addAllE {σ : Type} (m : MSig σ) : List (Nat × σ) → R (MSig σ)
     let m' ← addSignatureE m s (i : Int)
     addAllE m' rest
 
+/-- `AddSignature` calls with ARBITRARY `int` indices (negative, ≥ n) in sequence (checked). -/
+def addAllIntE {σ : Type} (m : MSig σ) : List (Int × σ) → R (MSig σ)
+  | [] => .ok m
+  | (i, s) :: rest => do
+    let m' ← addSignatureE m s i
+    addAllIntE m' rest
+
+/-- invariant of everything built from `NewMultisig(n)` by `AddSignature` with arbitrary indices:
+    well-formed bit array and at least as many signatures as marked positions (an out-of-range
+    index appends a signature without marking anything). -/
+def Built {σ : Type} (n : Nat) (m : MSig σ) : Prop :=
+  WellFormed m.ba n ∧ (marked m.ba n).length ≤ m.sigs.length
+
 /-- the assignment after a sequence of adds: the latest signature per position wins. -/
 def assignAll {σ : Type} (f : Nat → Option σ) : List (Nat × σ) → Nat → Option σ
   | [] => f
